@@ -13,7 +13,7 @@ from vf.xmodel import Schema, Rop, build_api, build_loader
 
 SHARDS = {'quick': 16, 'thorough': 32}
 TIMEOUT = {'quick': 900, 'thorough': 5400}
-MUST_HIT = ['SortOracle.other-reflexive-associations', 'SortOracle.after-edit-history', 'SortOracle.mixed-subset-termination', 'SortOracle.chains', 'SortOracle.ring', 'StepBudget.guarded-calls', 'SortOracle.subset-termination']
+MUST_HIT = ['SortOracle.some-whole-chains', 'SortOracle.ring-with-outsiders', 'SortOracle.other-reflexive-associations', 'SortOracle.after-edit-history', 'SortOracle.mixed-subset-termination', 'SortOracle.chains', 'SortOracle.ring', 'StepBudget.guarded-calls', 'SortOracle.subset-termination']
 MUST_REACH = ['xtuml/meta.py:sort_reflexive', 'xtuml/meta.py:sort_reflexive.<locals>.sequence_generator']
 ANCHORS = MUST_REACH
 MIN_NONTRIVIAL = {'quick': 500, 'thorough': 500}
@@ -183,13 +183,23 @@ def check_edited(ctx, budget, rng, n, route):
 
 
 def verify_chains(ctx, budget, insts, n, chains, order):
+    verify_chain_set(ctx, budget, insts, n, chains, order)
+    if len(chains) >= 2:
+        # a set made up of some of the whole chains, while the class holds the other chains too
+        ctx.hit('SortOracle.some-whole-chains')
+        some = tuple(chains[::2])
+        keep = set(x for c in some for x in c)
+        verify_chain_set(ctx, budget, insts, n, some, [i for i in order if i in keep])
+
+
+def verify_chain_set(ctx, budget, insts, n, chains, order):
     import xtuml
     idx = dict((id(x), i) for i, x in enumerate(insts))
     members = [insts[i] for i in order]
     for phrase in ('succeeds', 'precedes'):
         ctx.hit('SortOracle.chains')
         got = [idx[id(x)] for x in call_sort(budget, xtuml.QuerySet(members), n, phrase)]
-        if sorted(got) != list(range(n)):
+        if sorted(got) != sorted(order):
             raise Mismatch('chains/members', 'sorting %r across %r gave %r (not every member exactly once)'
                            % (chains, phrase, got))
         pos = dict((x, p) for p, x in enumerate(got))
@@ -204,6 +214,12 @@ def verify_chains(ctx, budget, insts, n, chains, order):
 def check_ring(ctx, budget, n, ring, route, rot):
     import xtuml
     m, insts = build(n, [ring], True, route)
+    if (rot + n) % 2:
+        # further instances of the class that are not part of the sorted set: a singleton, and two
+        # forming a chain of their own
+        ctx.hit('SortOracle.ring-with-outsiders')
+        out = [m.new('P', N=100 + i) for i in range(3)]
+        xtuml.relate(out[1], out[2], 1, 'precedes')
     idx = dict((id(x), i) for i, x in enumerate(insts))
     order = list(range(n))[rot:] + list(range(n))[:rot]
     members = [insts[i] for i in order]
